@@ -57,6 +57,19 @@ func c15scenario(c c15cfg) *explore.Scenario {
 			if err != nil {
 				panic(err)
 			}
+			if c.setter == "burst-lowered-then-noop" {
+				// the burst is lowered before any traffic (the bucket still holds what the old burst allowed);
+				// afterwards another thread keeps calling Set with the values in force while datagrams arrive
+				zzvsched.WaitIdle() // the filter's loop has credited its initial tokens (a full bucket at the old burst)
+				burst2 = c.burst / 4
+				f.Set(vnet.TBFMaxBurst(burst2))
+				setEnd = zzvsched.Elapsed()
+				_ = zzvsched.Now() // one clock tick: everything handed over from now on is strictly after the change
+				zzvsched.GoNamed("setter", func() {
+					f.Set(vnet.TBFRate(c.rate))
+					f.Set(vnet.TBFMaxBurst(burst2))
+				})
+			}
 			if c.setter == "close-concurrent" {
 				// Close at any point of the arrivals: whoever arrives afterwards may wait for ever (the filter is
 				// dead), but nothing may overtake, be duplicated or exceed the envelope
@@ -65,7 +78,7 @@ func c15scenario(c c15cfg) *explore.Scenario {
 					_ = f.Close()
 				})
 			}
-			if c.setter != "" && c.setter != "close" && c.setter != "close-concurrent" {
+			if c.setter != "" && c.setter != "close" && c.setter != "close-concurrent" && c.setter != "burst-lowered-then-noop" {
 				zzvsched.GoNamed("setter", func() {
 					setStart = zzvsched.Elapsed()
 					if c.setter == "rate" {
@@ -286,6 +299,7 @@ func init() {
 					out = append(out, c15scenario(c15cfg{rate: r, burst: b, queue: 50000, n: n - 1, setter: "burst", bound: 1}))
 					out = append(out, c15scenario(c15cfg{rate: r, burst: b, queue: 50000, n: n - 1, setter: "burst-down-up", bound: 1}))
 					out = append(out, c15scenario(c15cfg{rate: r, burst: b, queue: 50000, n: 3, setter: "rate-again", bound: 1}))
+					out = append(out, c15scenario(c15cfg{rate: r, burst: b, queue: 50000, n: 1, setter: "burst-lowered-then-noop", bound: 2}))
 					out = append(out, c15scenario(c15cfg{rate: r, burst: b, queue: 50000, n: n - 1, setter: "close", bound: 2}))
 					out = append(out, c15scenario(c15cfg{rate: r, burst: b, queue: 50000, n: n - 1, setter: "close-concurrent", bound: 1}))
 				}
@@ -305,7 +319,7 @@ func init() {
 			}
 			return out
 		},
-		Rule: "rates {8 kbit/s, 1 Mbit/s} x bursts {1000, 8000 B} x queue sizes {2000, 50000 B} x every arrival script of 3 (thorough 4) datagrams over gaps {0,1ms,99ms,101ms,1s} and sizes {0,1,B/2,B,B+1}, optionally with a concurrent Set(rate/4), Set(burst/4) or Set(the rate in force, twice, on a backlogged filter with gaps of a third of the bucket's fill time) placed at every scheduling point, or with Close called right behind the last arrival while the loop may still be forwarding, or from a separate thread at any point of the arrivals; every pair of forwarded datagrams bounds an interval for which the byte count is compared with burst + rate x length",
+		Rule: "rates {8 kbit/s, 1 Mbit/s} x bursts {1000, 8000 B} x queue sizes {2000, 50000 B} x every arrival script of 3 (thorough 4) datagrams over gaps {0,1ms,99ms,101ms,1s} and sizes {0,1,B/2,B,B+1}, optionally with a concurrent Set(rate/4), Set(burst/4) or Set(burst/4) before any traffic followed by concurrent no-op Sets, Set(the rate in force, twice, on a backlogged filter with gaps of a third of the bucket's fill time) placed at every scheduling point, or with Close called right behind the last arrival while the loop may still be forwarding, or from a separate thread at any point of the arrivals; every pair of forwarded datagrams bounds an interval for which the byte count is compared with burst + rate x length",
 		Assumptions: []string{"across a reconfiguration the larger rate/burst applies unless the change completed before the interval began (most lenient sound reading)",
 			"a discard counts as 'queue full' when queued bytes + packet length reach the configured queue size"}})
 }
